@@ -4,6 +4,8 @@ All names live in namespace `Mctp.Proc`.
 -/
 import Mctp.Lemmas.ProcessDecode
 import Mctp.Lemmas.ProcessResp
+import Mctp.Lemmas.ProcessPanic
+import Mctp.Lemmas.ProcessRoundtrip
 namespace Mctp
 namespace Proc
 
